@@ -21,7 +21,7 @@ def check(run):
             rule="scenarios on the real BaseConn over the scripted carrier: 1-16 sender goroutines x 1-5 sends, flush delays 0-200 ms, flushed/buffered mixes, packet sizes "
                  "from 9 bytes to several bufio buffers, a closer goroutine at arbitrary moments, a receiver goroutine, carrier failures at the k-th write (with partial "
                  "acceptance), read, close and deadline call, read timeouts, peer end-of-stream, writes blocked by back pressure; then a flushed send, two buffered sends "
-                 "(before/after the flush delay), a receive and a second close after the end. Every trace validated against Conn.tla: each carrier write must carry exactly "
+                 "(before/after the flush delay), a receive and a second close after the end; a family of the same scenarios runs over a real TCP connection on loopback (logged net.Conn under transport.NetConn). Every trace validated against Conn.tla: each carrier write must carry exactly "
                  "the bytes the model's bufio buffer holds (wholeness, order, nothing lost before Close closes), every result must be the model's, every call must return")
     run.assumptions = ["Conn.tla models mercury.Writer/bufio.Writer from their source (mercury v0.2.0, Go 1.26 bufio)", "the scripted carrier has TCP-like close semantics",
                        "the recorded wire is used as prophecy for the order in which senders entered the writer"]
